@@ -22,7 +22,11 @@ RULE = ("one PRNG (VERIF_SEED) draws a DAG of 3-12 nodes (quick; up to 30 thorou
         "expression grammar (chains, diamonds, fan-in, conditional reads switched by signals, get_untracked, untrack(..), "
         "repeated reads), and a history of 10-60 set (values 0..3, so equal-value writes are frequent) / notify / read "
         "operations, in a fifth of the cases with one or two arena signals / memos disposed in the middle (later reads of them by "
-        "bodies give 0 and track nothing); a second family adds effects (no writes) with partial executor progress between the operations. "
+        "bodies give 0 and track nothing); a second family adds effects (no writes) with partial executor progress between the operations; "
+        "a 'zones' family builds memos `tracked + untrack(|| stale_memo + signal ...)` (several reads in one untrack zone, the memo "
+        "pulled first) and writes the untracked sources; an 'immediate' family puts ImmediateEffects among the subscribers (they re-run "
+        "and re-subscribe inside the marking phase of a write; oracle only); a 'deep' family reads the far end of chains of 270-450 "
+        "(thorough: up to 1000) memos, a few links being small diamonds. "
         "A case is non-trivial when some memo body ran at least twice; distinct = distinct case hash.")
 TRUSTED = [
     "Coq 8.16.1 kernel (coqc); no axioms: every theorem of Properties_C01.v is 'Closed under the global context'",
@@ -33,6 +37,9 @@ TRUSTED = [
     "arena storage of Memo/RwSignal/ReadSignal/WriteSignal (a disposed item drops its value and subscriber set; the harness "
     "reads a disposed handle with try_get and takes None as 0), i64 arithmetic without overflow",
     "static graphs only: memos created inside other computations are not modelled",
+    "ImmediateEffect is not part of the Coq model: the 'immediate' cases are checked by the Python oracle only; reads made "
+    "inside the marking phase of a write (by an ImmediateEffect, its source check, or what they pull) are not checked: they "
+    "see not-yet-marked memos by design; every read made after the write has returned is",
 ]
 ASSUMPTIONS = [
     "single thread; user closures are deterministic and pure (memo bodies do not write signals)",
@@ -42,6 +49,9 @@ ASSUMPTIONS = [
     "disposing a source is not a change: what a computation logged about it stands until the computation runs again for "
     "another reason; disposed nodes are not written, notified or read from the top level afterwards, are not written by effects "
     "and are not wrapped (a wrapper keeps the value alive)",
+    "deep graphs: MemoInner::mark_check re-propagates on every incoming path (guard != Dirty, always recurses), so the push "
+    "phase over k stacked diamonds costs 2^k (a ladder of ~300 stacked diamonds does not return on the unchanged code: a "
+    "performance cliff, not a wrong value); generated deep graphs are chains with at most 5 diamonds",
 ]
 LEVEL_TEXT = ("Coq proofs about an executable Gallina transcription of MemoInner (mark_dirty / mark_check / update_if_necessary), "
               "the signal notification path, Track::track, untrack and derived signals, for all well-formed graphs and all "
@@ -51,7 +61,7 @@ LEVEL_NOTE = "see theorem list in Properties_C01.v; static graphs; trusted: Coq 
 TECHNIQUE = "Coq proof (global invariant preserved by every operation, induction on node index inside reads) + differential correspondence of the extracted model with the Rust code"
 
 
-def generate(rng, tier):
+def _main_stream(rng, tier):
     n1, n2 = (12000, 4000) if tier == "quick" else (120000, 40000)
     big = 12 if tier == "quick" else 30
     for i in range(n1):
@@ -62,7 +72,26 @@ def generate(rng, tier):
         prog = X.gen_program(rng, rng.randint(4, 11), rng.randint(1, 3), allow_wr=False, p_der=0.25)
         ops = X.gen_ops(rng, prog, rng.randint(10, 40), w=(0.32, 0.04, 0.36, 0.14, 0.12, 0.02), p_drop=0.2)
         yield dict(case=C.norm([prog, ops]), kind="memos+effects", compare=True)
+    # untrack ZONES with several reads (a stale memo pulled first, then signals), the untracked sources written
+    for i in range(1500 if tier == "quick" else 15000):
+        yield dict(case=C.norm(X.gen_zone_case(rng)), kind="zones", compare=True)
+    # ImmediateEffect subscribers: they run inside the marking phase of a write and change subscriber lists while
+    # the signal is still notifying (not modelled: oracle only; the reads made after each write are checked)
+    for i in range(2500 if tier == "quick" else 25000):
+        ne = rng.choice([1, 1, 2])
+        prog = X.gen_program(rng, rng.randint(ne + 2, 9), ne, eff_kinds=(5,), allow_wr=False, p_untr=0.05, p_der=0.2)
+        ops = X.gen_ops(rng, prog, rng.randint(6, 30), w=(0.45, 0.05, 0.5, 0.0, 0.0, 0.0))
+        yield dict(case=C.norm([prog, ops]), kind="immediate", compare=False)
 
+
+def generate(rng, tier):
+    # deep chains (a few links are small diamonds), read at the far end; spread over the stream
+    deep = []
+    for i in range(6 if tier == "quick" else 24):
+        depth = rng.randint(270, 400) if (tier == "quick" or i % 3) else rng.randint(600, 1000)
+        deep.append(dict(case=C.norm(X.gen_deep_case(rng, depth, n_diamonds=rng.choice([0, 2, 5]), with_effect=(i % 3 == 2))),
+                         kind="deep", compare=True))
+    return X.interleave(_main_stream(rng, tier), deep, 3000 if tier == "quick" else 8000)
 
 def oracle(item, impl):
     return X.run_oracle(item, impl, X.C01Hooks())
